@@ -220,6 +220,8 @@ def describe(a, facts, K):
             return "new"
         if a[1][0] == "global" and a[1][2] == "_encode_host" and a[2] and a[2][0][0] == "param":
             return "new"
+        if a[1] == ("builtin", "int") and len(a[2]) == 1 and a[2][0][0] == "param" and not a[3]:
+            return "new"        # the validated port argument as a plain number
     return show(a)[:50]
 
 
@@ -331,12 +333,13 @@ def f_build_args(ctx: Ctx):
                     continue
                 t = ("param", p_)
                 absent = truth(("cmp", "Is", t, NONE), s.facts) is True or truth(t, s.facts) is False
-                # the port may be elided when it is the scheme default
-                if p_ == "port" and any(fv is True and k[0] == "cmp" and k[1] == "Eq" and t in (k[2], k[3]) and "DEFAULT_PORTS" in show(k)
+                # the port may be elided when it is the scheme default (`int(port)` is the validated port as a plain number)
+                from .port import _unint
+                if p_ == "port" and any(fv is True and k[0] == "cmp" and k[1] == "Eq" and t in (_unint(k[2]), _unint(k[3])) and "DEFAULT_PORTS" in show(k)
                                         for k, fv in s.facts.items()):
                     absent = True
                 host_absent = truth(("param", "host"), s.facts) is False
-                groups.setdefault(p_, []).append(absent or host_absent or t in inside)
+                groups.setdefault(p_, []).append(absent or host_absent or t in inside or (p_ == "port" and t in {_unint(x) for x in inside}))
         tpl = groups.pop("authority template", None)
         if tpl is not None:
             ctx.instance(rule)
